@@ -342,25 +342,29 @@ def replay(arg):
                            "stored_weights_as": "list" if wlist else "ndarray",
                            "calls": [h["op"] for h in beh["hist"]], "zero_based": "indices in calls are 1-based"}}
         traces.append(tr)
-    if corrupt:
-        _corrupt(traces[0], corrupt)
     return traces, n_eval
 
 
 def _corrupt(trace, how):
-    """binding demo (VERIF_C19_CORRUPT): damage one logged field"""
+    """binding demo (VERIF_C19_CORRUPT=proba|state|refset|drop): damage one
+    logged field / drop one event; returns True if something was changed"""
+    if how == "drop":
+        ev = trace["events"]
+        if len(ev) > 2 and ev[1]["ev"] == "Fit" and ev[2]["ev"] == "PartialFit" and not ev[2]["op"]["useBase"]:
+            del trace["events"][1]
+            return True
+        return False
     for e in trace["events"]:
         if how == "proba" and e["obs"] and e["obs"][0]["pp"]["v"]:
             e["obs"][0]["pp"]["v"][0] += 5
-            return
+            return True
         if how == "state" and e["st"]["cur"]:
             e["st"]["cur"][0][1] = 1 - max(e["st"]["cur"][0][1], 0)
-            return
+            return True
         if how == "refset" and e["refset"]:
             e["refset"] = e["refset"][:-1]
-            return
-    if how == "drop" and len(trace["events"]) > 2:
-        del trace["events"][1]
+            return True
+    return False
 
 
 # --------------------------------------------------------------------------
@@ -406,8 +410,8 @@ def _mc(cfgname, workers):
 
 
 def _sim(arg):
-    seed, num = arg
-    return tlc.generate("MC_IndexWrapper", "IndexWrapper_sim.cfg",
+    seed, num, cfgname = arg
+    return tlc.generate("MC_IndexWrapper", cfgname,
                         extra=("-simulate", "num=%d" % num, "-depth", "30", "-seed", str(seed)))
 
 
@@ -435,23 +439,23 @@ def main(tier="quick", seed=0):
     # ---- (M) exhaustive model checking of the design (runs while behaviours are
     # generated and replayed) -----------------------------------------------------
     mcs = ["MC_IndexWrapper_d4.cfg", "MC_IndexWrapper.cfg"] if quick else \
-        ["MC_IndexWrapper_d4n.cfg", "MC_IndexWrapper_mid2.cfg"]
+        ["MC_IndexWrapper_d4n.cfg", "MC_IndexWrapper_d5.cfg", "MC_IndexWrapper_mid2.cfg"]
     mc_pool = ThreadPoolExecutor(max_workers=len(mcs))
     futs = [mc_pool.submit(_mc, c, 6 if quick else 8) for c in mcs]
     # ---- (G) behaviours ---------------------------------------------------------
     gen_cfg = "IndexWrapper_gen.cfg" if quick else "IndexWrapper_gen3.cfg"
     exh_all = chk.generate("MC_IndexWrapper", gen_cfg)
-    n_sim, per = (4, 400) if quick else (12, 1500)
+    n_sim, per, sim_cfg = (4, 400, "IndexWrapper_sim.cfg") if quick else (12, 1000, "IndexWrapper_sim8.cfg")
     with ThreadPoolExecutor(max_workers=n_sim) as ex2:
-        sims = list(ex2.map(_sim, [(1000 * seed + k + 1, per) for k in range(n_sim)]))
+        sims = list(ex2.map(_sim, [(1000 * seed + k + 1, per, sim_cfg) for k in range(n_sim)]))
     walks = []
     for res in sims:
         walks.extend(res.json_lines)
         chk.transitions += res.generated
-        chk.mc_runs.append({"module": "MC_IndexWrapper", "cfg": "IndexWrapper_sim.cfg (-simulate)",
+        chk.mc_runs.append({"module": "MC_IndexWrapper", "cfg": sim_cfg + " (-simulate)",
                             "generated_cases": len(res.json_lines), "wall_s": round(res.wall, 2)})
     rng = np.random.default_rng(seed)
-    n_exh = 1800 if quick else 30000
+    n_exh = 1800 if quick else 20000
     if len(exh_all) > n_exh:     # seeded subset of the exhaustive enumeration
         exh = [exh_all[i] for i in sorted(rng.choice(len(exh_all), size=n_exh, replace=False))]
     else:
@@ -474,8 +478,7 @@ def main(tier="quick", seed=0):
                 chosen = [vs[int(rng.integers(len(vs)))]]
             for v in chosen:
                 g = geoms[int(rng.integers(len(geoms)))]
-                items.append((beh, v, g, int(rng.integers(1 << 30)), "%s%d-s%d" % (src, b, seed),
-                              corrupt if (corrupt and len(items) == 7) else ""))
+                items.append((beh, v, g, int(rng.integers(1 << 30)), "%s%d-s%d" % (src, b, seed), ""))
     # stored sample weights handed over as a python list (array-like): a few
     # behaviours of the plainest configuration
     extra = [it for it in items if it[0]["cfg"]["initW"] and it[0]["cfg"]["kind"] == "lr"
@@ -494,6 +497,11 @@ def main(tier="quick", seed=0):
     for trs, n_eval in out:
         traces.extend(trs)
         chk.count(n_eval)
+    if corrupt:      # binding demo: the first trace the corruption applies to
+        for tr in traces:
+            if tr["variant"] in ("lr-default", "nb-default", "pwc-default") and _corrupt(tr, corrupt):
+                tr["id"] += "/CORRUPTED-" + corrupt
+                break
     for tr in traces:
         c = tr["cfg"]
         for e in tr["events"]:
